@@ -30,3 +30,17 @@ pub(crate) fn point(name: &'static str) {
 pub fn codec_encode(frames: &[&[u8]]) -> Vec<u8> {
     crate::transport::smtp::client::verif_codec_encode(frames)
 }
+
+/// `parse_response` on `i`: which of nom's four outcomes, and on success the reply and the
+/// number of octets left unconsumed
+#[cfg(feature = "smtp-transport")]
+pub fn parse_response_outcome(
+    i: &str,
+) -> (&'static str, Option<(crate::transport::smtp::response::Response, usize)>) {
+    match crate::transport::smtp::response::parse_response(i) {
+        Ok((rest, r)) => ("ok", Some((r, rest.len()))),
+        Err(nom::Err::Incomplete(_)) => ("incomplete", None),
+        Err(nom::Err::Error(_)) => ("error", None),
+        Err(nom::Err::Failure(_)) => ("failure", None),
+    }
+}
